@@ -14,6 +14,7 @@ CONSTANTS
   FixAwait = FALSE
   FixPublish = FALSE
   FixInvMax = FALSE
+  AnyTakesAwaiters = FALSE
   SeqInv = TRUE
   MaxOps = 0
 VIEW View
